@@ -11,7 +11,7 @@ import PdModel.Proto
 * `holds <tree>`    → `valid=<b> nested=<b> safe=<b> render=<b> text=<decoded text|->`
 * `validid s xs xc`                                            → `true|false`
 * `deprtext name pkg ver (repl|-) xs xc`                       → `ok <text>` | `ValueError`
-* `sanitise r` / `sanitisefixed r` (the replacement sanitiser; `.rstrip('\\')` / `.rstrip('\\ ')`) → `ok <s'>`
+* `sanitise r` (the replacement sanitiser, `.rstrip('\\ ')`) / `sanitiseold r` (`.rstrip('\\')`, before 782581b) → `ok <s'>`
 * `literal r'`                                                 → `broken` | `nolit` | `lit <t>`
 * `guard r xs xc`   → `id` | `wrapped safe=<b> held=<b>`  (the model's `holds` for the identifier guard)
 
@@ -109,8 +109,8 @@ def handle (args : List String) : String :=
       | .ok t => okStr t
       | .error _ => "ValueError"
     | _, _, _, _, _, _ => "bad-op"
-  | "sanitise" :: r => str1 (fun s => okStr (sanitise false s)) r
-  | "sanitisefixed" :: r => str1 (fun s => okStr (sanitise true s)) r
+  | "sanitise" :: r => str1 (fun s => okStr (sanitise true s)) r
+  | "sanitiseold" :: r => str1 (fun s => okStr (sanitise false s)) r
   | "literal" :: r => str1 (fun s => match interpolatedLiteral s with
       | .broken => "broken"
       | .nolit => "nolit"
@@ -120,7 +120,7 @@ def handle (args : List String) : String :=
     | some s, some xs, some xc =>
       if validateIdentifier (tablesOf xs xc) s then "id"
       else
-        let r' := sanitise false s
+        let r' := sanitise true s
         "wrapped safe=" ++ showB (literalSafe r') ++ " held=" ++
           showB (interpolatedLiteral r' == .lit r' [' ', 'i', 'n', 's', 't', 'e', 'a', 'd', '.'])
     | _, _, _ => "bad-op"
